@@ -98,6 +98,9 @@ func (p *KPlan) Valid() bool {
 			if f.Spoof != 0 && !(p.Scenario == 8 && p.Transport == 1) {
 				return false // a forged reply ahead of the real one needs the real NetlinkClient's sender check
 			}
+			if f.AckType != 0 && p.Scenario != 8 && p.Scenario != 17 {
+				return false
+			}
 			if f.DataFirst && p.Scenario != 8 {
 				return false // a reply ahead of its ACK is judged (relaxed) by the C08 and C16 scenarios only
 			}
@@ -155,7 +158,7 @@ func (p *KPlan) Valid() bool {
 			if o.K == kSetFailure && o.A > 2 {
 				return false
 			}
-			if (o.K == kAddRule || o.K == kDeleteRule) && o.A > 40 {
+			if (o.K == kAddRule || o.K == kDeleteRule) && o.A > 42 {
 				return false
 			}
 			if o.K == kSendRaw && o.A > 8970 {
@@ -184,6 +187,12 @@ func (p *KPlan) Valid() bool {
 // ruleBytes is the opaque payload of rule id n (the kernel treats rules as
 // byte strings; lengths vary so that buffer reuse shows).
 func ruleBytes(id uint32) []byte {
+	if id == 41 {
+		return nil // a caller with nothing in its hands: the kernel is asked all the same, and refuses
+	}
+	if id == 42 {
+		return []byte{}
+	}
 	n := 8 + int(id*7)%90
 	if id >= 30 {
 		// rules as large as a message may be: requests (and the error ACKs that echo
@@ -205,6 +214,9 @@ func ruleID(r *core.Rng) uint32 {
 	if r.Chance(1, 10) {
 		return uint32(r.Range(30, 40))
 	}
+	if r.Chance(1, 25) {
+		return uint32(r.Range(41, 42)) // nil / empty rule
+	}
 	return uint32(r.Intn(12))
 }
 
@@ -216,6 +228,10 @@ func genFaults(r *core.Rng, n int, p *KPlan, errnoPct, unsolPct, stalePct, delay
 			if r.Chance(1, 12) {
 				// the kernel's errno space ends at MAX_ERRNO (4095); kernel-internal codes above 255 do reach netlink ACKs
 				f.Errno = core.Pick(r, 255, 256, 257, 512, 516, 524, 768, 4095, r.Range(134, 4095))
+			}
+			if (p.Scenario == 8 || p.Scenario == 17) && r.Chance(1, 20) {
+				// the refusal arrives with a netlink type other than NLMSG_ERROR (NOOP, DONE, OVERRUN, an audit type)
+				f.AckType = core.Pick[uint16](r, 1, 3, 4, 1000, 1001, 1300)
 			}
 		}
 		if r.Chance(unsolPct, 100) {
@@ -311,6 +327,9 @@ func genInit(r *core.Rng, p *KPlan) {
 	}
 	for k := r.Intn(5); k > 0; k-- {
 		id := ruleID(r)
+		if id > 40 {
+			id = 3 // the kernel's list never holds an empty rule
+		}
 		dup := false
 		for _, x := range p.InitRules {
 			if x == id {
@@ -680,6 +699,9 @@ func GenKPlanC18(r *core.Rng) *KPlan {
 			}
 			p.SendErr = append(p.SendErr, e)
 		}
+	}
+	if r.Chance(1, 8) {
+		p.SeqStart = uint32(1<<32 - r.Range(1, 6)) // the sequence counter wraps during this run
 	}
 	p.Auto = core.Pick(r, uint32(0), 0, 1, 1, 2, 4)
 	p.AutoSalt = r.U32()
